@@ -491,7 +491,8 @@ def merge (now : DateTime) (s : PropState) (ovals : List Elem) (odtype : DType) 
   else if strict && s.dtype.isSome && odtype.isSome && s.dtype != odtype then (s, .raised .value)
   else
     let toAdd := ovals.filter (fun v => !pyMem v s.values)
-    extend now s (.seq false toAdd) strict
+    -- `self.extend(to_add, strict=False)`: merge_check has compared the dtypes already (fix b7c69ea)
+    extend now s (.seq false toAdd) false
 
 inductive Op where
   | setValues (v : Inp)
